@@ -291,7 +291,7 @@ def check(pid, tier, seed=0, jobs=None, only=None, keep_work=False):
       ev['inconclusive_names'].append(t['name'])
     elif st == 'PRE_UNSAT' and [k for k in known if k['harness'] == spec.name]:
       row['note'] = 'shard lies entirely inside a known-finding region'
-      ev['discharged'] += 1
+      ev['obligations'] -= 1
     elif st == 'PRE_UNSAT':
       ev['harness_errors'].append('%s: unable to meet precondition: %s' % (t['name'], _first_msg(r)))
     else:
